@@ -25,7 +25,7 @@ def handle (line : String) : String :=
   match ws with
   | "cursor" :: _ | "spec" :: _ | "load" :: _ | "loadframe" :: _ | "iter" :: _ => handleCursor ws
   | "traj" :: _ | "key" :: _ => handleTraj ws
-  | "itopsubset" :: _ | "itopjoin" :: _ | "itopnested" :: _ | "topsubset" :: _ | "topjoin" :: _ | "toprows" :: _ | "toppdb" :: _ | "topeqhash" :: _ => handleTopo ws
+  | "itopsubset" :: _ | "itopsubsetl" :: _ | "itopjoin" :: _ | "itopnested" :: _ | "topsubset" :: _ | "topjoin" :: _ | "toprows" :: _ | "toppdb" :: _ | "topeqhash" :: _ => handleTopo ws
   | "writer" :: _ | "save" :: _ => handleWriter ws
   | "sel" :: _ | "selraw" :: _ => handleSel ws
   | "mic" :: _ => handleMic ws
